@@ -3578,6 +3578,7 @@ static int bufr_load_datasubsets( FILE *fp, BUFR_Dataset *dts, int lineno, BUFR_
    LinkedList    *tmplist;
    int            debug;
    int            errflg=0;
+   int            quoted;
 
    debug = bufr_is_debug();
    count = arr_count( dts->tmplte->gabarit );
@@ -3822,8 +3823,10 @@ static int bufr_load_datasubsets( FILE *fp, BUFR_Dataset *dts, int lineno, BUFR_
             }
          }
 
+      quoted = 0;
       if (ptr[i] == '"') /* QUOTED STRING */
          {
+         quoted = 1;
          ptr = ptr+i+1; 
          tok = strtok_r( NULL, "\n\r", &ptr );
          len = tok ? strlen( tok ) : 0; /* nothing may follow the opening quote */
@@ -3853,7 +3856,7 @@ static int bufr_load_datasubsets( FILE *fp, BUFR_Dataset *dts, int lineno, BUFR_
          switch( cb->value->type )
             {
             case VALTYPE_STRING :
-               if (strcmp( tok, "MSNG" ) != 0)
+               if (quoted || (strcmp( tok, "MSNG" ) != 0)) /* "MSNG" in quotes is a string */
                   {
                   bufr_descriptor_set_svalue( cb, tok );
                   }
